@@ -52,6 +52,15 @@ def run(tier, seed):
         pairs.add((p1, rng.randint(1, 5), p2, rng.randint(1, 5)))
     pairs.add(((0, 0, 0), 1, (0, 0, 0), 1))
     pairs.add(((1, 2, -1), 2, (1, 2, -1), 2))
+    # misorientations of exactly 0 and exactly 180 degrees with rounding noise in the matrices: (trace - 1)/2 lands a few ulp
+    # outside [-1, 1] on either side.  Identical pairs (two-fold operators give -1), and U1 = 1 with U2 a half turn (Cayley q = 0)
+    for _ in range(14 if tier == "quick" else 200):
+        p1 = tuple(rng.randint(-7, 7) for _ in range(3))
+        q1 = rng.randint(1, 7)
+        pairs.add((p1, q1, p1, q1))
+        p2 = tuple(rng.randint(-7, 7) for _ in range(3))
+        if any(p2):
+            pairs.add(((0, 0, 0), 1, p2, 0))
     common.write_data_module(wd, "SymCases", {"Pairs": common.TlaSet([[list(a), b, list(c), d] for a, b, c, d in sorted(pairs)])})
     r = common.run_tlc("Symmetry", "MC_Symmetry.cfg", wd, timeout=2400)
     if r.violated:
@@ -139,10 +148,10 @@ def run(tier, seed):
                 v.violation("Umis raised %r on symmetry-equivalent input (%s)" % (ex, what), desc)
                 continue
             # angles near 0/180 are ill conditioned in acos: compare cosines
-            if np.abs(np.cos(np.radians(mm)) - np.cos(np.radians(base))).max() > 1e-9:
+            if not np.all(np.isfinite(mm)) or np.abs(np.cos(np.radians(mm)) - np.cos(np.radians(base))).max() > 1e-9:
                 v.violation("Umis multiset of angles changes under '%s' (crystal system %d)" % (what, cs), desc)
         uu = np.asarray(symmetry.Umis(U1, U1, cs))[:, 1]
-        if uu.min() > 1e-5:
+        if not np.all(np.isfinite(uu)) or not (uu.min() <= 1e-5):
             v.violation("Umis(U,U,%d) does not contain 0 (min %.3g deg)" % (cs, uu.min()), desc)
     if v.violations:
         seen = {}
